@@ -99,27 +99,47 @@ pub fn opt<T: std::fmt::Display>(o: Option<T>) -> String {
 pub struct Out {
     w: BufWriter<io::Stdout>,
     pub lines: u64,
+    /// while set nothing is written (editor BFS: the oracles are fed with a silently replayed history to rebuild
+    /// their cross-step state; every replayed step was recorded and judged when it was first explored)
+    pub mute: bool,
+    /// `!oracle` lines written so far (not counted while muted)
+    pub oracle_fails: u64,
+    /// while set `#stat` / `#sample` lines are dropped (editor BFS: the oracles' periodic statistics are per-session noise there)
+    pub mute_stats: bool,
 }
 
 impl Out {
     pub fn new() -> Out {
-        Out { w: BufWriter::with_capacity(1 << 20, io::stdout()), lines: 0 }
+        Out { w: BufWriter::with_capacity(1 << 20, io::stdout()), lines: 0, mute: false, oracle_fails: 0, mute_stats: false }
     }
     /// a transcript record the model has to reproduce
     pub fn rec(&mut self, line: &str) {
+        if self.mute {
+            return;
+        }
         self.lines += 1;
         writeln!(self.w, "{}", line).unwrap();
     }
     /// statistics / comments (ignored by the model driver, collected by the orchestrator)
     pub fn stat(&mut self, key: &str, val: impl std::fmt::Display) {
+        if self.mute || self.mute_stats {
+            return;
+        }
         writeln!(self.w, "#stat {} {}", key, val).unwrap();
     }
     pub fn sample(&mut self, text: &str) {
+        if self.mute || self.mute_stats {
+            return;
+        }
         writeln!(self.w, "#sample {}", text).unwrap();
     }
     /// the property, evaluated directly on the implementation, fails on this input
     /// `class` is the finding class the input falls in (see KNOWN_FINDINGS.txt), or `new`
     pub fn oracle_fail(&mut self, prop: &str, class: &str, detail: &str) {
+        if self.mute {
+            return;
+        }
+        self.oracle_fails += 1;
         writeln!(self.w, "!oracle {} {} {}", prop, class, detail).unwrap();
     }
     pub fn flush(&mut self) {
